@@ -278,7 +278,8 @@ impl Prop for C16 {
         } else {
             // beyond the grid: longer vectors, more CPUs than the machine has, families qW-1,qW,qW+1
             let cpus = match rng.below(10) {
-                0..=5 => rng.urange(1, 16),
+                0 => 1,
+                1..=5 => rng.urange(1, 16),
                 6..=8 => rng.urange(17, 64),
                 _ => rng.urange(65, 200),
             };
@@ -441,6 +442,15 @@ impl Prop for C16 {
                         );
                     }
                 }
+            }
+            // one worker: no reassociation is possible, so the threaded product must be the sequential one
+            // bit for bit on ANY data (a fused multiply-add or any other change of the arithmetic shows here)
+            if cpus == 1 && o.r1.to_bits() != o.seq.to_bits() {
+                return violation(
+                    "value-mismatch",
+                    "dot_f64:one-worker",
+                    format!("len={len} cpus=1 schedule#{k}: with a single worker dot_f64 = {:e} ({:016x}) but the sequential dot = {:e} ({:016x}); there is nothing to reassociate", o.r1, o.r1.to_bits(), o.seq, o.seq.to_bits()),
+                );
             }
             // basis probes: index i covered exactly once
             for (j, &i) in case.probes.iter().enumerate() {
